@@ -53,6 +53,8 @@ CASES = {
     "single-wfs": dict(masks=[[[1, 1, 0], [0, 1, 1], [1, 0, 1]]], d=[1 / 3.], H=[0], theta=[[7, -3]]),
     "large-L0": dict(masks=[[[1, 1, 0], [0, 1, 1], [1, 0, 0]], [[0, 1, 1], [1, 1, 0], [0, 0, 1]]], d=[1 / 3., 1 / 3.], H=[0, 0], theta=[[0, 0], [20, -10]], L0s=[300., 1000., 5000.]),
     "small-L0": dict(masks=[numpy.ones((2, 2)), [[1, 0], [1, 1]]], d=[.5, .5], H=[0, 0], theta=[[0, 0], [15, 5]], L0s=[1., 2., 0.5]),
+    "int-d": dict(masks=[[[1, 1, 0], [0, 1, 1], [1, 0, 0]], [[0, 1, 1], [1, 1, 0], [0, 0, 1]]], d=[1, 1], H=[0, 0], theta=[[0, 0], [20, -10]], T=3),
+    "int-d-array": dict(masks=[numpy.ones((2, 2)), [[1, 0], [1, 1]]], d=numpy.array([2, 2]), H=[0, 0], theta=[[0, 0], [15, 5]], T=4),
     "diff-d": dict(masks=[[[1, 1, 0], [0, 1, 1], [1, 0, 0]], numpy.ones((2, 2))], d=[1 / 3., .5], H=[0, 0], theta=[[0, 0], [5, 3]]),
 }
 
@@ -62,12 +64,15 @@ def chk_entries(inp):
     for name in names:
         c = CASES[name]
         nw = len(c["masks"])
-        T = 1.0
+        T = c.get("T", 1.0)
         lam = [500e-9, 600e-9, 550e-9][:nw]
         alts, r0s, L0s = [0., 5000., 9000.], [.2, .3, .25], list(c.get("L0s", [25., 10., 30.]))
         masks = [numpy.asarray(m, dtype=float) for m in c["masks"]]
-        cm = aotools.CovarianceMatrix(nw, masks, T, c["d"], c["H"], c["theta"], lam, 3, numpy.array(alts), r0s, L0s)
-        M = cm.make_covariance_matrix().astype(float)
+        try:
+            cm = aotools.CovarianceMatrix(nw, masks, T, c["d"], c["H"], c["theta"], lam, 3, numpy.array(alts), r0s, L0s)
+            M = cm.make_covariance_matrix().astype(float)
+        except Exception as ex:
+            return bad("building the covariance matrix raises %s for a legal configuration (%s: sub-aperture diameters %r)" % (type(ex).__name__, name, c["d"]), repr(ex)[:200], "a covariance matrix")
         O, meas = oracle(masks, T, c["d"], c["H"], c["theta"], lam, alts, r0s, L0s)
         sc = abs(O).max()
         if M.shape != O.shape:
